@@ -97,7 +97,7 @@ def unchanged(maps, status=True):
 
 
 def arm_change_contracts(cls, maps, neutral, extra_modifies=(), others=True, props='C01 C08', rem_req=(),
-                         rem_inv='INV', other_maps=None):
+                         rem_inv='INV', other_maps=None, pre_inv='INV~arms', add_ens=(), rem_ens=()):
     """Contracts of BaseMAB.add_arm / remove_arm for receiver class `cls` whose per-arm dictionaries are `maps`."""
     mods = ['self.%s{}' % m for m in maps] + ['self.arm_to_status{}'] + list(extra_modifies)
     ens_add = ['INV', '[C01,C03,neutral] ' + neutral + ' and ' + status_fresh('arm')]
@@ -109,9 +109,9 @@ def arm_change_contracts(cls, maps, neutral, extra_modifies=(), others=True, pro
         ens_rem.append('[C01,others] forall_arm(lambda a: implies(inkeys(self.arm_to_expectation, a), %s))'
                        % unchanged(om))
     fn('base_mab.BaseMAB.add_arm', cls=cls, props=props, params={'arm': 'arm', 'binarizer': 'opt:callable'},
-       requires=ADD_REQ, modifies=mods, ensures=ens_add)
+       requires=[pre_inv] + ADD_REQ[1:], modifies=mods, ensures=ens_add + list(add_ens))
     fn('base_mab.BaseMAB.remove_arm', cls=cls, props=props, params={'arm': 'arm'},
-       requires=REM_REQ + list(rem_req), modifies=mods, ensures=ens_rem)
+       requires=[pre_inv] + REM_REQ[1:] + list(rem_req), modifies=mods, ensures=ens_rem + list(rem_ens))
 
 
 def predict_contracts(module, cls, E1, EM, stream1, streamM, modifies=('self.rng.rng.state',), requires=('INV',),
